@@ -217,10 +217,15 @@ impl<A> Future for Addr<A> {
     type Output = Result<()>;
     fn poll(self: Pin<&mut Self>, cx: &mut std::task::Context<'_>) -> Poll<Self::Output> {
         log::trace!("polling actor");
-        self.get_mut()
-            .running
-            .poll_unpin(cx)
-            .map(|p| p.map_err(Into::into))
+        let this = self.get_mut();
+        // a completed `Shared` handle is spent: clones of it would panic when polled,
+        // so keep an unspent handle around once we have resolved
+        let unspent = this.running.clone();
+        let res = this.running.poll_unpin(cx).map(|p| p.map_err(Into::into));
+        if res.is_ready() {
+            this.running = unspent;
+        }
+        res
     }
 }
 
